@@ -6,7 +6,10 @@ package smtp
 // reap pass, a second transaction of the same key must share it, and every release must find its permit.
 //
 //	op line:  C03 b <S|L> <D|I> <limits> <maxBuckets> <step>...
-//	steps:    o<i>:<ip>:<dom>  session i connects from address #ip and opens a transaction for sender domain #dom
+//	steps:    o<i>:<ip>:<dom>  session i connects from address #ip and opens a transaction for sender domain #dom;
+//	                           dom / 1000 selects the parameters of the MAIL command (c03BMailParams: REQUIRETLS on a
+//	                           connection without TLS, BODY=, SMTPUTF8, SIZE=, AUTH=, and parameters go-smtp refuses) -
+//	                           whatever the reply is, a refused transaction holds nothing
 //	          c<i>:<d|r|q|x>   session i ends its transaction with DATA / RSET (then QUIT), or QUIT, or an abrupt close
 //	          f<n>             n sessions in a row with fresh keys: MAIL (+RCPT), RSET, QUIT
 //	          a / h            more / less than the reap interval passes
@@ -137,6 +140,20 @@ func (b *c03BBackend) waitLive(want int) bool {
 func c03BPeer(ip int) net.Addr {
 	return &net.TCPAddr{IP: net.IPv4(10, 1, byte(ip>>8), byte(ip)).To4(), Port: 41000 + ip%1000}
 }
+
+// parameters of the MAIL command, selected by dom / 1000 (the sender domain, the key of the source scope, is
+// k<dom>.example with the whole number: for the model a variant is just another key)
+var c03BMailParams = []string{
+	"",
+	" REQUIRETLS", // not advertised without TLS, accepted by go-smtp all the same
+	" BODY=8BITMIME",
+	" SMTPUTF8",
+	" SIZE=100",
+	" AUTH=<>",
+	" REQUIRETLS SMTPUTF8 BODY=7BIT SIZE=1",
+	" BODY=8bitmime AUTH=someone+40example.org",
+}
+
 func c03BIPKey(ip int) string { return fmt.Sprintf("10.1.%d.%d", ip>>8&255, ip&255) }
 func c03BSrcKey(d int) string { return fmt.Sprintf("k%d.example", d) }
 
@@ -193,7 +210,7 @@ func (r *c03BRun) cmd(w *c03Client, line string) int {
 
 // MAIL (+ RCPT in deferred mode): the reply of the command that takes the permits
 func (r *c03BRun) begin(w *c03Client, dom int) int {
-	code := r.cmd(w, fmt.Sprintf("MAIL FROM:<h@%s>", c03BSrcKey(dom)))
+	code := r.cmd(w, fmt.Sprintf("MAIL FROM:<h@%s>%s", c03BSrcKey(dom), c03BMailParams[dom/1000%len(c03BMailParams)]))
 	if r.s.deferred && code == 250 {
 		code = r.cmd(w, "RCPT TO:<rcpt@d0.example>")
 	}
@@ -376,6 +393,12 @@ func c03BOne(t *testing.T, out *vh.Out, s *c03BScn) {
 	}
 	out.Stat(fmt.Sprintf("reap.cfg.lmtp=%v.deferred=%v", s.lmtp, s.deferred))
 	out.Stat(fmt.Sprintf("reap.limits.%d.maxB=%d", s.lim, s.maxB))
+	for _, st := range s.steps {
+		if f := strings.Split(st, ":"); st[0] == 'o' && len(f) == 3 {
+			d, _ := strconv.Atoi(f[2])
+			out.Stat("reap.mailparams." + strings.TrimSpace(c03BMailParams[d/1000%len(c03BMailParams)]))
+		}
+	}
 	for _, o := range r.obs {
 		eq, col := strings.IndexByte(o, '='), strings.LastIndexByte(o, ':')
 		for _, c := range strings.Split(o[eq+1:col], "/") {
@@ -388,13 +411,27 @@ func c03BOne(t *testing.T, out *vh.Out, s *c03BScn) {
 func c03BGen(r *vh.Rng) *c03BScn {
 	s := &c03BScn{lmtp: r.Chance(40), deferred: r.Chance(50), lim: r.Intn(len(c03LimCfgs)), maxB: 1 + r.Intn(3)}
 	how := func() string { return r.Pick("d", "r", "q", "x") }
-	add := func(f string, a ...interface{}) { s.steps = append(s.steps, fmt.Sprintf(f, a...)) }
+	variant := 0
+	if r.Chance(55) {
+		variant = 1 + r.Intn(len(c03BMailParams)-1)
+	}
+	mixed := false
+	add := func(f string, a ...interface{}) {
+		if strings.HasPrefix(f, "o") && len(a) == 3 {
+			v := variant
+			if mixed { // the same domain number with other parameters is another key
+				v = r.Intn(len(c03BMailParams))
+			}
+			a[2] = a[2].(int) + 1000*v
+		}
+		s.steps = append(s.steps, fmt.Sprintf(f, a...))
+	}
 	if r.Chance(60) {
 		// one long-lived transaction per key, a flood of other keys, time, more keys (a reap pass runs), then a
 		// second transaction of the first key while the first is still open
-		add("o0:1:1")
+		add("o%d:%d:%d", 0, 1, 1)
 		if r.Chance(40) {
-			add("o1:2:2")
+			add("o%d:%d:%d", 1, 2, 2)
 		}
 		if r.Chance(70) {
 			add("f%d", s.maxB+r.Intn(3))
@@ -407,14 +444,14 @@ func c03BGen(r *vh.Rng) *c03BScn {
 		}
 		switch r.Intn(4) {
 		case 0:
-			add("o2:1:1")
+			add("o%d:%d:%d", 2, 1, 1)
 		case 1:
-			add("o2:1:3") // the same address, another sender domain
+			add("o%d:%d:%d", 2, 1, 3) // the same address, another sender domain
 		case 2:
-			add("o2:3:1") // the same sender domain from another address
+			add("o%d:%d:%d", 2, 3, 1) // the same sender domain from another address
 		default:
-			add("o2:1:1")
-			add("o3:1:1")
+			add("o%d:%d:%d", 2, 1, 1)
+			add("o%d:%d:%d", 3, 1, 1)
 		}
 		order := []int{0, 1, 2, 3}
 		for i := range order {
@@ -433,6 +470,7 @@ func c03BGen(r *vh.Rng) *c03BScn {
 	}
 	n := 5 + r.Intn(8)
 	next := 0
+	mixed = r.Chance(30)
 	for k := 0; k < n; k++ {
 		switch x := r.Intn(100); {
 		case x < 35 && next < 6:
